@@ -120,6 +120,7 @@ def CarveN (asg : List String) : CExpr → Bool
   | .post _ _ _ => false
   | .call _ _ _ _ => false
   | .stmtexpr _ _ _ => false
+  | .seqexpr _ _ _ _ _ => false
 def CarveNs (asg : List String) : List CExpr → List CT → Bool
   | [], _ => true
   | _ :: _, [] => true
